@@ -8,12 +8,15 @@ Open Scope N_scope.
 Definition strict_cond_ok (rs : list restriction) (s : subject) (c : cid) : bool :=
   existsb (fun d => N.eqb (r_type d) (subject_type s) && kind_eqb (r_kind d) (subject_kind s) && N.eqb (r_cond d) c) rs.
 
-(* finding F4 (C18): the write/read validation accepts a conditioned tuple when ANY restriction of
-   the subject's type carries the condition, e.g. user:a with c for [user, user:* with c].  The
-   weighted-graph engine (validateCtxTupleInModel, edge conditions) and the pipeline (Conditions
-   filter of ReadStartingWithUser, not applied to contextual tuples) are strict. *)
+(* finding F4 (C18) and its mirror image: the write/read validation accepts a conditioned tuple when
+   ANY restriction of the subject's type carries the condition (user:a with c for [user, user:* with c])
+   and an unconditioned userset when a plain-object restriction of its type is unconditioned
+   (group:1#member for [group, group#member with c]).  The weighted-graph engine
+   (validateCtxTupleInModel, edge conditions) and the pipeline (Conditions filter of
+   ReadStartingWithUser, not applied to contextual tuples) are strict: the restriction of exactly
+   the subject's kind must carry exactly the tuple's condition. *)
 Definition lenient_cond (m : model) (conds : list cid) (t : tuple) : bool :=
-  valid_for_read m conds t && negb (N.eqb (t_cond t) 0) &&
+  valid_for_read m conds t &&
   match get_relation m (otype (t_obj t)) (t_rel t) with
   | Some rd => negb (strict_cond_ok (rd_restr rd) (t_sub t) (t_cond t))
   | None => false
